@@ -1045,7 +1045,10 @@ async fn random_case(c: &mut Ctx, rng: &mut Rng, len: usize) {
                 c.op_own_invalid_candidate(txs).await;
             }
         } else {
-            // reorganisation by a two-block fork
+            // reorganisation by a two-block fork; its transactions spend outputs that
+            // already exist at the fork point
+            let tip_id = c.tip().id;
+            let free: Vec<Slip> = free.into_iter().filter(|s| s.block_id < tip_id).collect();
             let ins1 = same_owner(&free, 1, rng);
             if ins1.is_empty() {
                 continue;
